@@ -16,6 +16,7 @@ func checkC08(c *Check) {
 	c.messageDispatch("C08.1 type-dispatch")
 	c.notificationEncode("C08.3 notification-encode")
 	c.notifSentThenTeardown("C08.2 notification-sent")
+	c.writeSites("C08.3 frames-not-interleaved")
 }
 
 // notificationEncode: code -> byte 0, subcode -> byte 1, data appended
